@@ -8,11 +8,15 @@
    - a negative level shows everything (every tree);
    - attributes level 0 prints no attribute; visibility is monotone in the level; level 1 shows only
      help/alias; level 2 only attributes that are set.
-   The clauses "the filtered text parses to exactly that sub-tree", "same tree at every level once
-   attributes are ignored" and "a prefix is prepended to every line" are decided by the
-   correspondence stream + oracle (C19's Filters/Skeleton streams), not by a theorem: PARTIAL there. *)
+   - a prefix (any string without a newline character) is prepended to every printer line and changes
+     nothing else: printing with prefix p at width w gives exactly the printer lines of the un-prefixed
+     print at width w - |p|, each with p in front (a "printer line" may contain raw newlines of quoted
+     words; those continuation fragments belong to the word and carry no prefix).
+   The clauses "the filtered text parses to exactly that sub-tree" and "same tree at every level once
+   attributes are ignored" are decided by the correspondence stream + oracle (C19's Filters/Skeleton
+   streams), not by a theorem: PARTIAL there. *)
 From Coq Require Import List Ascii String ZArith Bool.
-From Phil Require Import Base Tokenizer Tree Parser Show ShowProofs.
+From Phil Require Import Base Tokenizer Tree Parser Show ShowProofs ShowPrefix.
 Import ListNotations.
 
 Theorem C19_expert_filter_is_prune : forall k l, forallb wf_show l = true -> forall prefix level width,
@@ -46,6 +50,22 @@ Print Assumptions C19_level1_only_help_alias.
 Theorem C19_level2_only_set : forall name v, attr_visible name v 2 = true -> v <> ANone.
 Proof. exact level2_set_attributes. Qed.
 Print Assumptions C19_level2_only_set.
+
+Theorem C19_prefix_on_every_line : forall l p e lvl w, mem nl p = false ->
+  show_objs l [] e lvl (w - zlen p) = lift render (objs_lines l [] e lvl (w - zlen p))
+  /\ show_objs l p e lvl w = lift (fun ls => render (add_prefix p ls)) (objs_lines l [] e lvl (w - zlen p)).
+Proof. exact show_objs_prefix. Qed.
+Print Assumptions C19_prefix_on_every_line.
+
+Theorem C19_every_line_starts_with_prefix : forall l p e lvl w ls, mem nl p = false ->
+  objs_lines l p e lvl w = Ok ls -> Forall (fun x => exists y, x = p ++ y) ls.
+Proof. exact objs_lines_start_with_prefix. Qed.
+Print Assumptions C19_every_line_starts_with_prefix.
+
+Theorem C19_text_is_its_printer_lines : forall l q e lvl w,
+  show_objs l q e lvl w = lift render (objs_lines l q e lvl w).
+Proof. exact show_objs_lines. Qed.
+Print Assumptions C19_text_is_its_printer_lines.
 
 (* non-vacuity: a parsed document with a dotted name below a hidden level satisfies wf_show, and the filter
    really removes something *)
